@@ -322,10 +322,10 @@ class FilesInfoRead(Contract):
     target = "py7zr.archiveinfo:FilesInfo._read"
     props = ("C06", "C05", "C08")
     abstract = True
-    opaque = ("archiveinfo:read_uint64", "archiveinfo:read_boolean", "archiveinfo:FilesInfo._read_name", "archiveinfo:FilesInfo._read_times", "archiveinfo:FilesInfo._read_attributes", "archiveinfo:FilesInfo._read_start_pos")
+    opaque = ("archiveinfo:read_uint64", "archiveinfo:remaining_size", "archiveinfo:read_boolean", "archiveinfo:FilesInfo._read_name", "archiveinfo:FilesInfo._read_times", "archiveinfo:FilesInfo._read_attributes", "archiveinfo:FilesInfo._read_start_pos")
     pure = ("map", "list", "count")
     noraise = ("BytesIO", "map", "list", "count", "tell")
-    frame_preserving = ("BytesIO", "map", "list", "count", "tell", "seek", "read", "read_uint64", "read_boolean")
+    frame_preserving = ("BytesIO", "map", "list", "count", "tell", "seek", "read", "read_uint64", "read_boolean", "remaining_size")
     stable_attrs = ("files",)
     int_functions = ()
     unroll_limit = 4
@@ -388,7 +388,20 @@ class FilesInfoRead(Contract):
         return {("call", "_read_times"): [on_times], ("contract-call", "py7zr.archiveinfo:FilesInfo._read_times"): [on_times]}
 
     def ensures(self, c, old, result, **b):
-        return [("walk-ends-only-at-the-end-marker", True)]
+        eng = c.eng
+        if eng.ctx_mode == "assume":
+            return []
+        tr = eng.trace
+        nums = [e for e in tr if e.kind in ("call", "contract-call") and e.name.endswith("read_uint64")]
+        rems = [e for e in tr if e.kind in ("call", "contract-call") and e.name.endswith("remaining_size")]
+        # C05 (FX24): one record is allocated per declared member, so the declared count is compared with what is left
+        # of the header before anything else happens, and the walk goes on only when it fits
+        first = bool(nums and rems and rems[0].args and rems[0].args[0] is b["fp"] and tr.index(rems[0]) == tr.index(nums[0]) + 1)
+        out = [("walk-ends-only-at-the-end-marker", True), ("member-count-checked-before-anything-is-allocated", first, ("C05",))]
+        if first:
+            gt = V.uf("cmp_Gt", V.vsort(), V.vsort(), z3.BoolSort())
+            out.append(("member-count-fits-the-remaining-header", Not(V.SBool(gt(V.box(nums[0].result).t, V.box(rems[0].result).t))), ("C05",)))
+        return out
 
 
 @contract
